@@ -145,3 +145,50 @@ Proof.
   intros Hk Hr Hs. unfold der_decode, der_parse. rewrite (der_parse_rest_encode r s k Hk Hr Hs).
   rewrite bytes_eqb_refl. reflexivity.
 Qed.
+
+(* ---------- signature/verifier: a byte appended to an accepted DER signature is rejected (after the fix) ---------- *)
+Lemma parse_len_app b l r t : parse_len b = Some (l, r) -> parse_len (b ++ t) = Some (l, r ++ t).
+Proof.
+  destruct b as [|x b]; [discriminate|]. cbn [app parse_len].
+  destruct (x <? 128); [intro H; inversion H; reflexivity|].
+  set (k := N.to_nat (x - 128)).
+  destruct ((k =? 0)%nat || (4 <? k)%nat || (length b <? k)%nat) eqn:C; [discriminate|].
+  apply orb_false_iff in C as [C C3]. apply Nat.ltb_ge in C3.
+  replace ((k =? 0)%nat || (4 <? k)%nat || (length (b ++ t) <? k)%nat) with false
+    by (rewrite C; symmetry; apply Nat.ltb_ge; rewrite app_length; lia).
+  rewrite firstn_app. replace (k - length b)%nat with 0%nat by lia. cbn [firstn]. rewrite app_nil_r.
+  destruct ((hd0 (firstn k b) =? 0) || (of_be (firstn k b) <? 128) || (2147483648 <=? of_be (firstn k b))); [discriminate|].
+  intro H; inversion H. rewrite skipn_app. replace (k - length b)%nat with 0%nat by lia. reflexivity.
+Qed.
+
+Lemma der_parse_rest_appended b r s x :
+  der_parse_rest b = Some (r, s, []) -> der_parse_rest (b ++ [x]) = Some (r, s, [x]).
+Proof.
+  destruct b as [|t b]; [discriminate|]. cbn [app].
+  assert (T : der_parse_rest (t :: b) = Some (r, s, []) -> t = 48).
+  { intro H. destruct t as [|p]; [discriminate|].
+    repeat (destruct p as [p|p|]; try discriminate). reflexivity. }
+  intro H. pose proof (T H) as E. subst t. clear T. revert H. cbn [der_parse_rest].
+  destruct (parse_len b) as [[l r']|] eqn:PL; [|discriminate].
+  rewrite (parse_len_app _ _ _ [x] PL).
+  destruct (length r' <? N.to_nat l)%nat eqn:L; [discriminate|]. apply Nat.ltb_ge in L.
+  replace (length (r' ++ [x]) <? N.to_nat l)%nat with false by (symmetry; apply Nat.ltb_ge; rewrite app_length; lia).
+  rewrite firstn_app. replace (N.to_nat l - length r')%nat with 0%nat by lia. cbn [firstn]. rewrite app_nil_r.
+  destruct (parse_int (firstn (N.to_nat l) r')) as [[a r2]|]; [|discriminate].
+  destruct (parse_int r2) as [[c r3]|]; [|discriminate].
+  intro H; inversion H as [[H1 H2 H3]]. rewrite skipn_app, H3. replace (N.to_nat l - length r')%nat with 0%nat by lia.
+  reflexivity.
+Qed.
+
+Lemma pkv_appended_rejected_l n b r s x :
+  (2 * n < length b)%nat -> pkv_decode Fixed n b = Some (r, s) -> pkv_decode Fixed n (b ++ [x]) = None.
+Proof.
+  intros Hl. unfold pkv_decode.
+  replace (length b <? 2 * n)%nat with false by (symmetry; apply Nat.ltb_ge; lia).
+  replace (2 * n <? length b)%nat with true by (symmetry; apply Nat.ltb_lt; lia).
+  replace (length (b ++ [x]) <? 2 * n)%nat with false by (symmetry; apply Nat.ltb_ge; rewrite app_length; lia).
+  replace (2 * n <? length (b ++ [x]))%nat with true by (symmetry; apply Nat.ltb_lt; rewrite app_length; lia).
+  destruct (der_parse_rest b) as [[[r0 s0] rest]|] eqn:P; [|discriminate].
+  destruct rest; [|discriminate]. intros _.
+  rewrite (der_parse_rest_appended _ _ _ x P). reflexivity.
+Qed.
